@@ -13,11 +13,20 @@ ADDENDA = {
     "C02": " Plus sessions in which publishers outrun the transport (tiny water marks and handle queues, slow or stalled "
            "writes) and runs of publishes to the same target with changing flags.",
     "C03": " Plus a consumer that is not read while 1500-4200 deliveries queue up for it, with other consumers' deliveries "
-           "and replies sent behind that backlog.",
+           "and replies sent behind that backlog, and messages of 1 MiB + 1 .. 3 MiB.",
     "C04": " Passive and nowait variants, server-named queues and the Queue wrapper methods are part of the sessions.",
     "C05": " Plus slow callers (held just before they pick up a reply) with the close arriving right behind the reply, injected "
            "errors of six io::ErrorKinds, and (model) liveness towards a protocol-abiding server: every caller, Connection::close "
-           "included, is eventually released.",
+           "included, is eventually released. Plus, over real loopback TCP, a server that hangs up right behind "
+           "Connection.OpenOk (Handover.tla: the socket's hand-over between the two I/O loops under edge-triggered "
+           "readiness; TcpTrace.tla).",
+    "C06": " Plus the hand-over of socket and frame buffer from the handshake loop to the connection loop (Handover.tla, "
+           "loopback-TCP sessions with a frame right behind OpenOk in the same write or later) and sessions with frames "
+           "close to frame_max under read plans that stop at every stage of such a frame.",
+    "C10": " The end-to-end cases rotate who asks for the negotiated channel_max (server, client, both).",
+    "C11": " A consumer queue found empty but still connected is checked too: once the I/O thread has dropped its sender "
+           "it must end.",
+    "C16": " Plus real-time slow-OpenOk sessions in which the client asks for a lower heartbeat than the server proposes.",
     "C08": " Plus crossing closes (client Close written, then the server's Close and the CloseOk for the client's, together or "
            "apart), slow callers, dropping the Connection instead of closing it, closes while the transport is stalled in "
            "mid-frame; and on the model: towards a protocol-abiding server (own view of open channels/consumers) the I/O thread "
@@ -27,7 +36,8 @@ ADDENDA = {
     "C13": " Plus returned messages arriving frame by frame while the return listener is registered, replaced or dropped "
            "between the frames.",
     "C15": " The end-to-end follow-through closes and reopens channels over several rounds.",
-    "C17": " Plus closes towards a server that has just gone silent (must end with MissedServerHeartbeats).",
+    "C17": " Plus closes towards a server that has just gone silent (must end with MissedServerHeartbeats), and sessions "
+           "opened with a connection timeout shorter than the heartbeat interval.",
     "C20": " Plus closes that cross on the wire (connection and channel level), and the compliant-server invariant "
            "NoInternalError on the model.",
 }
